@@ -75,6 +75,8 @@ def cls_name(n):
 
 
 def lean_ty(t):
+    if t.startswith('(') and ' × ' in t:
+        return t
     if t.startswith('List '):
         return 'List %s' % lean_ty_atom(t[5:])
     if t.startswith('OptList '):
@@ -85,6 +87,10 @@ def lean_ty(t):
 def lean_ty_atom(t):
     r = lean_ty(t)
     return '(%s)' % r if ' ' in r else r
+
+
+def lean_chars(s):
+    return '[%s]' % ', '.join("'%s'" % ('\\\\' if c == '\\' else "\\'" if c == "'" else c) for c in s)
 
 
 def lean_str(s):
@@ -104,6 +110,7 @@ class Fn(object):
         self.methods = ctx.get('methods', {})    # (class or union, method) -> [{'params': [(n, t)], 'ret': t, 'lean': name}]
         self.bases = ctx.get('bases', {})        # class -> base class (declared records only)
         self.cls = ctx.get('cls')                # class of the unit being translated
+        self.consts = ctx.get('consts', {})      # module-level integer constants of the unit's source file
         self.inputs = ctx.get('inputs', {})      # source text -> (lean term, type): values read from the environment
         self.tr = ctx.get('trace')               # trace mode: {'events', 'ignore_locals', 'ignore_calls', 'ignore_fields', 'units'}
         self.fall = None                         # what falling off the end of the current block means (trace mode)
@@ -196,7 +203,30 @@ class Fn(object):
         if isinstance(e, ast.Name):
             if e.id in env:
                 return [], lean_name(e.id), env[e.id]
+            if e.id in self.consts:
+                v = self.consts[e.id]                    # a module-level integer constant of the unit's source file
+                return [], '(V.int %d)' % v if v >= 0 else '(V.int (-%d))' % -v, 'V'
             raise Unsupported('unknown name %s' % e.id)
+        if isinstance(e, ast.Tuple) and len(e.elts) == 2:
+            b1, a, ta = self.expr(e.elts[0], env)
+            b2, c, tc = self.expr(e.elts[1], env)
+            return b1 + b2, '(%s, %s)' % (a, c), '(%s × %s)' % (lean_ty(ta), lean_ty(tc))
+        if isinstance(e, ast.ListComp):
+            # [x for x in xs if c]: the elements of a list that satisfy a condition, in order
+            if len(e.generators) != 1 or e.generators[0].is_async or not isinstance(e.generators[0].target, ast.Name) \
+                    or not (isinstance(e.elt, ast.Name) and e.elt.id == e.generators[0].target.id):
+                raise Unsupported('list comprehension of this shape')
+            g = e.generators[0]
+            b, t, ty = self.expr(g.iter, env)
+            if not ty.startswith('List '):
+                raise Unsupported('comprehension over a %s' % ty)
+            env2 = dict(env, **{g.target.id: ty[5:]})
+            test = g.ifs[0] if len(g.ifs) == 1 else ast.BoolOp(op=ast.And(), values=list(g.ifs)) if g.ifs \
+                else ast.Constant(value=True)
+            if isinstance(test, ast.Constant):
+                return b, t, ty
+            n = self.fresh()
+            return b + [(n, '(filterOpt %s fun %s => %s)' % (t, lean_name(g.target.id), self.opt_term(test, env2)))], n, ty
         if isinstance(e, ast.Attribute):
             b, t, ty = self.expr(e.value, env)
             if ty in self.records:
@@ -235,6 +265,13 @@ class Fn(object):
                     raise Unsupported('`is` other than with None')
                 t = '(V.isNone %s)' % a
                 return b1, t if isinstance(op, ast.Is) else '(! %s)' % t, 'Bool'
+            if isinstance(op, (ast.In, ast.NotIn)) and isinstance(e.left, ast.Constant) and isinstance(e.left.value, str):
+                b2, c, tc = self.expr(right, env)         # "lit" in x, for a str x (TypeError / other containers = none)
+                if tc != 'V':
+                    raise Unsupported('`in` on a %s' % tc)
+                n = self.fresh()
+                return b2 + [(n, '(V.contains %s %s)' % (lean_chars(e.left.value), c))], \
+                    n if isinstance(op, ast.In) else '(! %s)' % n, 'Bool'
             b2, c, tc = self.expr(right, env)
             if ta != 'V' or tc != 'V':
                 raise Unsupported('comparison of non-values')
@@ -332,6 +369,14 @@ class Fn(object):
                 up = '{ ' + ', '.join('%s := self.%s' % (lean_name(x), lean_name(x)) for x in self.records[base]) + \
                     ' : %s }' % cls_name(base)
                 return self.method_call(up, base, f.attr, e, env, [])
+            # x.startswith("lit") on a str value
+            if f.attr == 'startswith' and len(e.args) == 1 and not e.keywords and isinstance(e.args[0], ast.Constant) \
+                    and isinstance(e.args[0].value, str):
+                b, t, ty = self.expr(v, env)
+                if ty != 'V':
+                    raise Unsupported('startswith of a %s' % ty)
+                n = self.fresh()
+                return b + [(n, '(V.startswith %s %s)' % (lean_chars(e.args[0].value), t))], n, 'Bool'
             # x.split("c") on a str value
             if f.attr == 'split' and len(e.args) == 1 and not e.keywords and isinstance(e.args[0], ast.Constant) \
                     and isinstance(e.args[0].value, str) and len(e.args[0].value) == 1:
@@ -1028,6 +1073,46 @@ def translate(spec, repo):
             out.append('/-- argument %d of `%s(...)` in `%s.%s` -/' % (u['arg'], u['call'], u.get('class'), u['name']))
             out.append('def %s %s : Option %s :=\n%s\n' % (u['lean_name'], sig, u['returns'],
                                                            Fn.wrap(b_, '  some %s' % t_, '  ')))
+        elif kind == 'exit_map':
+            # a function whose body is one `try`: what it returns when the body ends normally (as a function of the
+            # declared inputs) and when the body raises an exception of a class a handler names.  A handler is
+            # `<statements without return / raise>; return <constant>`; handlers are tried in order, an exception no
+            # handler names propagates (`none`).  Classes are compared by name (no subclass relation).
+            stmts = [s_ for s_ in fn.body if not (isinstance(s_, ast.Expr) and isinstance(s_.value, ast.Constant))]
+            if got or len(stmts) != 1 or not isinstance(stmts[0], ast.Try) or stmts[0].orelse or stmts[0].finalbody:
+                raise Unsupported('%s is not a parameterless function of one try statement' % u['name'])
+            consts = {}
+            for n_ in tree(u['source']).body:
+                if isinstance(n_, ast.Assign) and len(n_.targets) == 1 and isinstance(n_.targets[0], ast.Name) \
+                        and isinstance(n_.value, ast.Constant) and isinstance(n_.value.value, int) \
+                        and not isinstance(n_.value.value, bool):
+                    consts[n_.targets[0].id] = n_.value.value
+            table, iparams = unit_inputs(u)
+            tr = Fn(spec, records, funcs, dict(ctx, cls=None, inputs=table, consts=consts))
+            dropped = set(u.get('ignore_statements', []))
+            body = tr.block([s_ for s_ in stmts[0].body if ast.unparse(s_) not in dropped], {}, 'V', None, 2)
+            arms = []
+            for h in stmts[0].handlers:
+                if not isinstance(h.type, ast.Name):
+                    raise Unsupported('handler for %s' % (ast.unparse(h.type) if h.type else 'everything'))
+                last = h.body[-1]
+                if not isinstance(last, ast.Return) or last.value is None or \
+                        any(isinstance(n_, (ast.Return, ast.Raise)) for s_ in h.body[:-1] for n_ in ast.walk(s_)):
+                    raise Unsupported('handler of %s is not `...; return <constant>`' % h.type.id)
+                b_, t_, ty_ = tr.expr(last.value, {})
+                if b_ or ty_ != 'V':
+                    raise Unsupported('handler of %s returns %s' % (h.type.id, ast.unparse(last.value)))
+                arms.append((h.type.id, t_))
+            sig = ' '.join('(%s : %s)' % (lean_name(n_), lean_ty(t)) for (n_, t) in iparams)
+            chain = '      none'
+            for (exc, t_) in reversed(arms):
+                chain = '      if exc = %s then some %s else\n%s' % (json.dumps(exc), t_, chain)
+            out.append('/-- `%s`: the value returned when the body of its `try` ends normally (`raised = none`) or raises an\n'
+                       'exception of the class named (`none`: the exception propagates) -/' % u['name'])
+            out.append('def %s %s (raised : Option String) : Option V :=\n  match raised with\n  | Option.none =>\n%s\n'
+                       '  | some exc =>\n%s\n' % (lean_name(u['name']), sig, body, chain))
+            out.append('/-- the exception classes `%s` handles, in order -/' % u['name'])
+            out.append('def %s_handled : List String := [%s]\n' % (lean_name(u['name']), ', '.join(json.dumps(a) for a, _t in arms)))
         else:
             raise Unsupported('unit kind %s' % kind)
     out.append('end %s' % spec['namespace'])
